@@ -1333,6 +1333,10 @@ class URL:
         if "/" in name:
             raise ValueError("Slash in name is not allowed")
         name = PATH_QUOTER(name)
+        return self._with_raw_name(name, keep_query, keep_fragment)
+
+    def _with_raw_name(self, name: str, keep_query: bool, keep_fragment: bool) -> "URL":
+        """Replace the last path segment with an already encoded name."""
         if name in (".", ".."):
             raise ValueError(". and .. values are forbidden")
         parts = list(self.raw_parts)
@@ -1371,10 +1375,14 @@ class URL:
         name = self.raw_name
         if not name:
             raise ValueError(f"{self!r} has an empty name")
+        if "/" in suffix:
+            raise ValueError("Slash in name is not allowed")
+        # name is already encoded, only the new suffix must be quoted
+        suffix = PATH_QUOTER(suffix)
         old_suffix = self.raw_suffix
         name = name + suffix if not old_suffix else name[: -len(old_suffix)] + suffix
 
-        return self.with_name(name, keep_query=keep_query, keep_fragment=keep_fragment)
+        return self._with_raw_name(name, keep_query, keep_fragment)
 
     def join(self, url: "URL") -> "URL":
         """Join URLs
